@@ -4,7 +4,7 @@
 # and fails with it.  Works in a scratch worktree under /tmp; cleans up.  Prints a summary line.
 M=$(readlink -f "$1"); TAG=$$
 WT=/tmp/vm_$TAG; TD=/tmp/vm_${TAG}_target
-git -C /repo worktree add --detach -q $WT HEAD
+git -C /repo worktree add --detach -q $WT ${MUT_BASE:-HEAD}
 [ -d /repo/target ] && cp -r --reflink=auto /repo/target $TD   # warm dependency artefacts
 cleanup() { git -C /repo worktree remove --force $WT 2>/dev/null; rm -rf $TD /tmp/vm_${TAG}_demo; }
 trap cleanup EXIT
